@@ -143,7 +143,7 @@ def loop_table(body, fn):
 
 
 _word_re = re.compile(r"\b[A-Za-z_][A-Za-z_0-9]*\b")
-_KEYWORDS = {"long", "unsigned", "int", "char", "short", "double", "float", "signed", "void", "sizeof",
+_KEYWORDS = {"const", "ul", "long", "unsigned", "int", "char", "short", "double", "float", "signed", "void", "sizeof",
              "__CPROVER_loop_entry", "__CPROVER_object_upto", "__CPROVER_object_whole", "__CPROVER_object_from",
              "__CPROVER_same_object", "__CPROVER_POINTER_OBJECT", "__CPROVER_bitvector", "__int128",
              "__CPROVER_typed_target", "__CPROVER_r_ok", "__CPROVER_w_ok", "__CPROVER_rw_ok", "NULL",
